@@ -31,7 +31,37 @@ KIND_OF_CLS = {PoseR2: "r2", PoseR3: "r3", PoseSE2: "se2", PoseSE3: "se3"}
 
 
 def kind(p):
-    return KIND_OF_CLS[type(p)]
+    k = KIND_OF_CLS.get(type(p))
+    if k is None:
+        for c in type(p).__mro__:
+            if c in KIND_OF_CLS:
+                return KIND_OF_CLS[c]
+        raise KeyError(type(p))
+    return k
+
+
+class SubPoseR2(PoseR2):
+    """User subclasses of the built-in poses (clients add fields / behaviour this way); they are poses of the same kind."""
+
+
+class SubPoseR3(PoseR3):
+    pass
+
+
+class SubPoseSE2(PoseSE2):
+    pass
+
+
+class SubPoseSE3(PoseSE3):
+    pass
+
+
+SUBPOSE = {"r2": SubPoseR2, "r3": SubPoseR3, "se2": SubPoseSE2, "se3": SubPoseSE3}
+
+
+def as_subclass(p):
+    """The same numbers in an instance of a user subclass of p's pose class."""
+    return np.array(fl(p), dtype=np.float64).view(SUBPOSE[kind(p)])
 
 
 def mkpose(k, l):
@@ -91,6 +121,8 @@ def build_edge(e):
     from . import custom
 
     info = np.array(e["info"], dtype=np.float64)
+    if e.get("info_dtype") == "int":
+        info = np.array(e["info"]).astype(np.int64)  # whole-number information given as an integer array (np.eye(3, dtype=int), np.diag([1, 2, 3]))
     t = e["type"]
     if t == "odo":
         return EdgeOdometry(list(e["ids"]), info, mkpose(e["est_kind"], e["est"]))
@@ -105,6 +137,18 @@ def build_edge(e):
 def build(spec):
     vs = build_vertices(spec)
     es = [build_edge(e) for e in spec["edges"]]
+    if spec.get("prebind_stale"):
+        # the edges arrive already linked to *other* Vertex objects carrying the same ids (e.g. a ground-truth graph built from the same edge objects);
+        # constructing this graph must link them to this graph's vertices
+        rng = np.random.default_rng(4242)
+        twins = {}
+        for v in vs:
+            tw = Vertex(v.id, mkpose(kind(v.pose), [x + float(rng.normal()) for x in fl(v.pose)]) if kind(v.pose) != "se3" else v.pose.copy())
+            if kind(v.pose) == "se3":
+                tw.pose[:3] = [x + float(rng.normal()) for x in fl(v.pose)[:3]]
+            twins[v.id] = tw
+        for e in es:
+            e.vertices = [twins[i] for i in e.vertex_ids]
     if spec.get("np_ids"):
         # ids as numpy integers (what client code gets from np.arange / array indexing) instead of Python ints
         for e in es:
@@ -411,3 +455,17 @@ def iteration_amplification(spec, base_graph_after, kw, delta=1e-11):
         dt, dr = pose_distance(k, p, q)
         worst = max(worst, dt, dr)
     return worst / delta
+
+
+def edges_linked_to_graph(g):
+    """Every edge's vertices are the listed Vertex objects that carry the ids it names."""
+    byid = {}
+    for v in g._vertices:
+        byid[v.id] = v
+    for e in g._edges:
+        if e.vertices is None or len(e.vertices) != len(e.vertex_ids):
+            return False
+        for ev, vid in zip(e.vertices, e.vertex_ids):
+            if byid.get(vid) is not ev:
+                return False
+    return True
